@@ -239,6 +239,13 @@ func (e *Extractor) Close() error {
 		}
 		if e.htmlReader != nil {
 			err := e.htmlReader.Close()
+			if e.filename == "" {
+				// Built from a string or from an io.Reader that has been
+				// read to its end (FromHTMLString, FromHTMLReader): there is
+				// no file to open again. The parsed document holds no
+				// handle, so it stays and the extractor can be used again.
+				return err
+			}
 			e.htmlReader = nil
 			e.ownsReader = false
 			e.readerOpened = false
